@@ -134,6 +134,7 @@ bool g_payload_trace = false;           // opt-in: `prd` / `pwr` trace lines for
 bool g_trace_sleep = false;              // opt-in: `<tid> sleep <ns>` line for every controlled usleep/nanosleep
 bool g_yield_time = false;               // opt-in: sched_yield by the only runnable thread advances the clock to the next deadline
 bool g_trace_yield = false;              // opt-in: `ev yield` line for every controlled sched_yield
+uint64_t g_tick_ns = 0;                   // opt-in (VRT_TICK_NS): virtual time that passes per scheduling point, so sleepers wake while others keep running
 bool g_trace_clock = false;              // opt-in: `ev clock <ns>` lines and ` to=<ns>` on timed fwait lines
 void (*g_clock_hook)(int, uint64_t) = nullptr;   // opt-in: called after every controlled clock_gettime (may sleep = stall injection)
 
@@ -249,12 +250,16 @@ Thread* pick(Thread* me, bool must_switch) {
 void reschedule(bool must_switch) {
   Thread* me = t_self;
   if (++g_steps > g_step_limit) die("step-limit");
+  g_clock += g_tick_ns;
   Thread* nx = pick(me, must_switch);
   if (nx != me) {
     ++g_switches;
     g_cur = nx;
+    // read before handing over: once a finished *detached* thread has given the baton away, the next
+    // vrt_begin() may already have freed its Thread object
+    bool finished = me->st == DONE;
     give(nx);
-    if (me->st != DONE) wait_go(me);
+    if (!finished) wait_go(me);
   }
 }
 
@@ -536,6 +541,7 @@ void vrt_begin(uint64_t seed) {
   if ((e = getenv("VRT_TRACE_ALL"))) g_trace_all = atoi(e) != 0;
   if ((e = getenv("VRT_MEM"))) g_view = !strcmp(e, "view");
   if ((e = getenv("VRT_STALE"))) g_stale = atoi(e);
+  g_tick_ns = (e = getenv("VRT_TICK_NS")) ? strtoull(e, nullptr, 10) : 0;
   // vary the stickiness per seed so both long runs and fine interleavings are explored
   if (!getenv("VRT_STICK")) g_stick = (int[]) {0, 30, 60, 85, 95}[g_rng.below(5)];
   g_change_points.clear();
@@ -569,6 +575,12 @@ uint64_t vrt_steps() { return g_steps; }
 uint64_t vrt_switches() { return g_switches; }
 uint64_t vrt_now() { return g_clock; }
 uint64_t vrt_races() { return g_races; }
+int vrt_live() {
+  int n = 0;
+  for (Thread* t : g_threads)
+    if (t->st != DONE) ++n;
+  return n;
+}
 void vrt_trace_clock(int on) { g_trace_clock = on != 0; }
 void vrt_trace_yield(int on) { g_trace_yield = on != 0; }
 void vrt_yield_time(int on) { g_yield_time = on != 0; }
